@@ -41,6 +41,19 @@ def _is_double_const(t):
         return False
 
 
+def _int_valued(t, depth=0):
+    """t is syntactically an integer: integer numerals, to_real of integer terms, and their sums / products / negations"""
+    if depth > 40:
+        return False
+    if z3.is_rational_value(t):
+        return t.denominator_as_long() == 1
+    if z3.is_app_of(t, z3.Z3_OP_TO_REAL):
+        return True
+    if z3.is_app(t) and t.decl().kind() in (z3.Z3_OP_ADD, z3.Z3_OP_MUL, z3.Z3_OP_SUB, z3.Z3_OP_UMINUS):
+        return all(_int_valued(c, depth + 1) for c in t.children())
+    return False
+
+
 def rnd(exact):
     exact = z3.simplify(exact)
     if z3.is_rational_value(exact):
@@ -49,7 +62,11 @@ def rnd(exact):
         fr = fractions.Fraction(exact.numerator_as_long(), exact.denominator_as_long())
         from .values import realval
         return realval(float(fr))       # python's correctly rounded Fraction -> float
+    if z3.is_app(exact) and exact.decl().eq(R):
+        return exact                    # already a double: rounding a representable value is exact
     eng = E.cur()
+    if getattr(eng, 'small_ints', False) and _int_valued(exact):
+        return exact                    # harness bound: every integer quantity of the run is below 2**53, hence a double
     if getattr(eng, 'exact_floats', False):
         # harness-level assumption (stated in its evidence): every float comparison on this path has an exact-arithmetic gap far above
         # the accumulated rounding error, so the doubles are modelled by their exact real values
